@@ -47,6 +47,14 @@ Definition pure_truth (D : data) : Prop :=
   exists tr : d_val D -> bool,
     (forall v w0, d_truth D v w0 = (POk (tr v), w0)) /\ (forall b, tr (d_const D (KBool b)) = b).
 
+(* the data semantics does not tell apart the two exceptions CPython has for the read of a function local that is
+   not bound yet: UnboundLocalError for the direct read, and the NameError ("cannot access free variable ...") of
+   the read through `lambda: x`, which is how the instrumented program reads a name whose read is hooked
+   (Py/Sem.v, lookup_thunk).  CPython itself does tell them apart: Properties/C01.v, C01_refuted_unbound_local_thunk;
+   KNOWN_FINDINGS.jsonl, unbound_local_thunk *)
+Definition unbound_reads_uniform (D : data) : Prop :=
+  forall x w0, d_exc D "NameError:free" x w0 = d_exc D "UnboundLocalError" x w0.
+
 (* source programs (no runtime-call constructor) *)
 Definition src_prog (p : program) : bool :=
   forallb (fun fd => src_ss (f_body fd)) (p_funs p) && src_ss (p_main p).
@@ -87,10 +95,10 @@ Section Runs.
                 analyses modpath (p_funs p) H fuel (has_rt (instr_prog H p)) (p_main p).
 
   Theorem instrumented_is_reference (H : list string) (p : program) (fuel : nat) (s : state) :
-    pure_truth D -> src_prog p = true -> ok_prog H p = true ->
+    pure_truth D -> unbound_reads_uniform D -> src_prog p = true -> ok_prog H p = true ->
     inst_run H fuel p s = ref_run H fuel p s.
   Proof.
-    intros [tr [Hp Hb]] Hs Ho. unfold inst_run, ref_run, run_with. cbv zeta.
+    intros [tr [Hp Hb]] Hu Hs Ho. unfold inst_run, ref_run, run_with. cbv zeta.
     unfold src_prog in Hs. unfold ok_prog in Ho.
     apply andb_true_iff in Hs; destruct Hs as [Hsf Hsm]. apply andb_true_iff in Ho; destruct Ho as [Hof Hom].
     unfold instr_prog. cbn [p_funs p_main].
@@ -98,7 +106,7 @@ Section Runs.
                (d_setattr D) (d_getitem D) (d_setitem D) (d_call D) (d_mklist D) (d_mktuple D) (d_tuple_of_list D)
                (d_iter D) (d_next D) (d_exc_match D) (d_exc D) (d_assertion D) (d_with_cause D) (d_as_exc D)
                (d_is_exception D) (d_as_fun D) (d_mk_fun D) (d_filt_str D) (d_is_int D) (d_line_of D)
-               analyses modpath H (p_funs p) tr Hp Hb); try assumption.
+               analyses modpath H (p_funs p) tr Hp Hb Hu); try assumption.
     apply forallb_forall. intros fd Hin. unfold fun_ok.
     rewrite forallb_forall in Hsf, Hof. rewrite (Hsf fd Hin), (Hof fd Hin). reflexivity.
   Qed.
@@ -155,12 +163,12 @@ Section Transparency.
 
   (* execution transparency of the instrumented program *)
   Theorem instrumented_is_transparent (H : list string) (p : program) (fuel : nat) (s : state D) :
-    observing_analyses D analyses -> pure_truth D -> list_building_pure D ->
+    observing_analyses D analyses -> pure_truth D -> unbound_reads_uniform D -> list_building_pure D ->
     src_prog p = true -> ok_prog H p = true -> tk_prog H p = true ->
     visible (inst_run D analyses modpath H fuel p s) = visible (orig_run D analyses modpath fuel p s).
   Proof.
-    intros Hobs Hp Hl Hs Ho Hk.
-    rewrite (instrumented_is_reference D analyses modpath H p fuel s Hp Hs Ho).
+    intros Hobs Hp Hu Hl Hs Ho Hk.
+    rewrite (instrumented_is_reference D analyses modpath H p fuel s Hp Hu Hs Ho).
     apply reference_is_transparent; try assumption. apply pure_truth_bool; exact Hp.
   Qed.
 End Transparency.
@@ -204,14 +212,14 @@ Section HookIndependence.
 
   (* the same for the instrumented program, through the refinement theorem *)
   Theorem instrumented_hook_independent (H1 H2 : list string) (h : string) (p : program) (fuel : nat) (s : state D) :
-    observing_analyses D analyses -> pure_truth D -> list_building_pure D ->
+    observing_analyses D analyses -> pure_truth D -> unbound_reads_uniform D -> list_building_pure D ->
     construct_hook h = true -> mem_str h H1 = true -> mem_str h H2 = true ->
     src_prog p = true -> ok_prog H1 p = true -> ok_prog H2 p = true -> g8_prog H1 H2 p = true ->
     deliveries_to h (inst_run D analyses modpath H1 fuel p s) = deliveries_to h (inst_run D analyses modpath H2 fuel p s).
   Proof.
-    intros Hobs Hp Hl Hh Hin1 Hin2 Hs Ho1 Ho2 Hk.
-    rewrite (instrumented_is_reference D analyses modpath H1 p fuel s Hp Hs Ho1).
-    rewrite (instrumented_is_reference D analyses modpath H2 p fuel s Hp Hs Ho2).
+    intros Hobs Hp Hu Hl Hh Hin1 Hin2 Hs Ho1 Ho2 Hk.
+    rewrite (instrumented_is_reference D analyses modpath H1 p fuel s Hp Hu Hs Ho1).
+    rewrite (instrumented_is_reference D analyses modpath H2 p fuel s Hp Hu Hs Ho2).
     apply reference_hook_independent; try assumption. apply pure_truth_bool; exact Hp.
   Qed.
 End HookIndependence.
